@@ -96,12 +96,34 @@ def _decoys(header: str, lines: list[str], mode: int) -> dict[str, list[str]]:
         first_note_tick = next((b.split(" ", 1)[0] for b in body if " = N " in b), None)
         return [b for b in body if not (b.split(" ", 1)[0] == first_note_tick and " = N 5 " in b)]
 
+    def rich():
+        # a fuller sibling: a plain note on every tick of the target, all of them inside one star-power
+        # phrase, a solo around them (what one difficulty contains says nothing about another)
+        ticks = sorted({int(ln.split(" ", 1)[0]) for ln in lines if ln[:1].isdigit()})
+        if not ticks:
+            return []
+        body = []
+        for j, t in enumerate(ticks):
+            body.append(f"{t} = N {(j + k) % 5} {(j % 3) * 4}")
+            if j == 0:
+                body += [f"{t} = S 2 {ticks[-1] - t + 1}", f"{t} = E solo"]
+        return body + [f"{ticks[-1]} = E soloend"]
+
+    # every third time one neighbour is the same instrument at another difficulty (Expert when possible)
+    dtxt = next(d for _, d in S.DIFFICULTIES if header.startswith(d))
+    sibling = ("Expert" if dtxt != "Expert" else "Hard") + header[len(dtxt):]
     out = {}
     if mode & 1:
-        out[before] = thinned() if k % 2 else cut(max(1, len(lines) // 2))
+        if k % 3 == 0:
+            out[sibling] = rich()
+        else:
+            out[before] = thinned() if k % 2 else cut(max(1, len(lines) // 2))
     out[header] = lines
     if mode & 2:
-        out[after] = cut(len(lines)) if k % 2 else thinned()
+        if k % 3 == 1 and sibling not in out:
+            out[sibling] = rich()
+        else:
+            out[after] = cut(len(lines)) if k % 2 else thinned()
     return out
 
 
